@@ -529,11 +529,27 @@ class X12LoopDataNode(X12DataNode):
                                      % (seg_obj.__class__, seg_obj))
 
     def _get_terminators(self):
+        terms = self._find_terminators()
+        if terms is not None:
+            return terms
+        if self.parent is None:
+            return ('~', '*', ':')
+        return self.parent._get_terminators()
+
+    def _find_terminators(self):
+        """
+        Terminators of the first segment in this sub-tree, or None
+        """
         for child in self.children:
             if isinstance(child, X12SegmentDataNode) and child.seg_data is not None \
                     and child.seg_data.seg_term is not None:
                 return (child.seg_data.seg_term, child.seg_data.ele_term, child.seg_data.subele_term)
-        return self.parent._get_terminators()
+        for child in self.children:
+            if isinstance(child, X12LoopDataNode) and child.type is not None:
+                terms = child._find_terminators()
+                if terms is not None:
+                    return terms
+        return None
 
     def copy(self):
         return self.__copy__()
